@@ -77,3 +77,18 @@ void snap_dense(const vf_api *P, const SuperMatrix *D, vf_snap *s)
 }
 int snap_same(const vf_snap *a, const vf_snap *b) { return a->n == b->n && (a->n == 0 || !memcmp(a->b, b->b, a->n)); }
 void snap_free(vf_snap *s) { free(s->b); s->b = NULL; s->n = 0; }
+
+void vf_ws_fill(vf_case *c, void *p, size_t n)
+{
+#if defined(__has_feature)
+#if __has_feature(memory_sanitizer)
+    (void)c; (void)p; (void)n; return;
+#endif
+#endif
+    if (getenv("VF_NOJUNK")) return;
+    static const unsigned char pats[] = { 0xA5, 0xFF, 0x7F, 0x01 };
+    unsigned char b = pats[(unsigned long)c->index % 4];
+    if (c->index % 5 == 4) { uint64_t z = (uint64_t)c->index * 0x9E3779B97F4A7C15ULL + 1; unsigned char *q = p; for (size_t i = 0; i < n; i++) { z = z * 6364136223846793005ULL + 1442695040888963407ULL; q[i] = (unsigned char)(z >> 56); } }
+    else memset(p, b, n);
+}
+void *vf_ws_alloc(vf_case *c, size_t n) { void *p = malloc(n ? n : 1); if (p) vf_ws_fill(c, p, n); return p; }
